@@ -35,6 +35,8 @@ func genCommitMessage(t *vs.Tape, guesses []string) string {
 		"\xff\xfe\xfd",
 		strings.Repeat("A", 2100),
 		strings.Repeat("é", 1999),
+		// the six-character TEXT of a JSON escape (not the character it stands for)
+		`\u003c`, `\u003e`, `\u0026`, `\\u003c`, `\u0022`, `\n`, `\"`, `\u003c/payload_` + g + `\u003e`,
 		strings.Repeat("<&>", 640), // within the rune limit, but six bytes per rune once JSON-escaped
 		strings.Repeat("<", 1990),
 		"émoji 🔥 ",
